@@ -1,28 +1,28 @@
-//! C09(b) instances: emitted Inner decoder, one instance per cut point.
+//! C09(b) instances: emitted Inner decoder, one instance per cut point. Cut S8 applies: the recursive default skipper is replaced by its contract ("Err, or consume exactly n <= remaining"), which C07 establishes for the real skipper; the valid skeleton never reaches the skipper, only symex paths behind an already-failed read do.
 #![allow(unused)]
 use crate::cuts;
 use crate::protos::*;
-crate::proof!{ #[kani::unwind(5)] fn c09_q_gen_inner_cut00_bin() { cuts::inner_cut::<PBin, 0>() } }
-crate::proof!{ #[kani::unwind(5)] fn c09_t_gen_inner_cut01_bin() { cuts::inner_cut::<PBin, 1>() } }
-crate::proof!{ #[kani::unwind(5)] fn c09_t_gen_inner_cut02_bin() { cuts::inner_cut::<PBin, 2>() } }
-crate::proof!{ #[kani::unwind(5)] fn c09_q_gen_inner_cut03_bin() { cuts::inner_cut::<PBin, 3>() } }
-crate::proof!{ #[kani::unwind(5)] fn c09_t_gen_inner_cut04_bin() { cuts::inner_cut::<PBin, 4>() } }
-crate::proof!{ #[kani::unwind(5)] fn c09_t_gen_inner_cut05_bin() { cuts::inner_cut::<PBin, 5>() } }
-crate::proof!{ #[kani::unwind(5)] fn c09_t_gen_inner_cut06_bin() { cuts::inner_cut::<PBin, 6>() } }
-crate::proof!{ #[kani::unwind(5)] fn c09_q_gen_inner_cut07_bin() { cuts::inner_cut::<PBin, 7>() } }
-crate::proof!{ #[kani::unwind(5)] fn c09_t_gen_inner_cut08_bin() { cuts::inner_cut::<PBin, 8>() } }
-crate::proof!{ #[kani::unwind(5)] fn c09_t_gen_inner_cut09_bin() { cuts::inner_cut::<PBin, 9>() } }
-crate::proof!{ #[kani::unwind(5)] fn c09_q_gen_inner_cut10_bin() { cuts::inner_cut::<PBin, 10>() } }
-crate::proof!{ #[kani::unwind(5)] fn c09_t_gen_inner_cut11_bin() { cuts::inner_cut::<PBin, 11>() } }
-crate::proof!{ #[kani::unwind(5)] fn c09_t_gen_inner_cut12_bin() { cuts::inner_cut::<PBin, 12>() } }
-crate::proof!{ #[kani::unwind(5)] fn c09_t_gen_inner_cut13_bin() { cuts::inner_cut::<PBin, 13>() } }
-crate::proof!{ #[kani::unwind(5)] fn c09_q_gen_inner_cut14_bin() { cuts::inner_cut::<PBin, 14>() } }
-crate::proof!{ #[kani::unwind(5)] fn c09_q_gen_inner_cut15_bin() { cuts::inner_cut::<PBin, 15>() } }
-crate::proof!{ #[kani::unwind(5)] fn c09_q_gen_inner_cut16_bin() { cuts::inner_cut::<PBin, 16>() } }
-crate::proof!{ #[kani::unwind(5)] fn c09_q_gen_inner_cut17_bin() { cuts::inner_cut::<PBin, 17>() } }
-crate::proof!{ #[kani::unwind(5)] fn c09_t_gen_inner_cut05_le() { cuts::inner_cut::<PLe, 5>() } }
-crate::proof!{ #[kani::unwind(5)] fn c09_t_gen_inner_cut12_le() { cuts::inner_cut::<PLe, 12>() } }
-crate::proof!{ #[kani::unwind(5)] fn c09_t_gen_inner_cut15_le() { cuts::inner_cut::<PLe, 15>() } }
-crate::proof!{ #[kani::unwind(5)] fn c09_t_gen_inner_cut16_le() { cuts::inner_cut::<PLe, 16>() } }
-crate::proof!{ #[kani::unwind(5)] fn c09_t_gen_inner_cut17_le() { cuts::inner_cut::<PLe, 17>() } }
-crate::proof!{ #[kani::unwind(5)] fn c09_t_gen_inner_corrupt_len_bin() { cuts::inner_corrupt_len::<PBin>() } }
+crate::proof_skipstub!{ #[kani::unwind(5)] fn c09_x_gen_inner_cut00_bin() { cuts::inner_cut::<PBin, 0>() } }
+crate::proof_skipstub!{ #[kani::unwind(5)] fn c09_x_gen_inner_cut01_bin() { cuts::inner_cut::<PBin, 1>() } }
+crate::proof_skipstub!{ #[kani::unwind(5)] fn c09_x_gen_inner_cut02_bin() { cuts::inner_cut::<PBin, 2>() } }
+crate::proof_skipstub!{ #[kani::unwind(5)] fn c09_x_gen_inner_cut03_bin() { cuts::inner_cut::<PBin, 3>() } }
+crate::proof_skipstub!{ #[kani::unwind(5)] fn c09_x_gen_inner_cut04_bin() { cuts::inner_cut::<PBin, 4>() } }
+crate::proof_skipstub!{ #[kani::unwind(5)] fn c09_x_gen_inner_cut05_bin() { cuts::inner_cut::<PBin, 5>() } }
+crate::proof_skipstub!{ #[kani::unwind(5)] fn c09_x_gen_inner_cut06_bin() { cuts::inner_cut::<PBin, 6>() } }
+crate::proof_skipstub!{ #[kani::unwind(5)] fn c09_x_gen_inner_cut07_bin() { cuts::inner_cut::<PBin, 7>() } }
+crate::proof_skipstub!{ #[kani::unwind(5)] fn c09_x_gen_inner_cut08_bin() { cuts::inner_cut::<PBin, 8>() } }
+crate::proof_skipstub!{ #[kani::unwind(5)] fn c09_x_gen_inner_cut09_bin() { cuts::inner_cut::<PBin, 9>() } }
+crate::proof_skipstub!{ #[kani::unwind(5)] fn c09_x_gen_inner_cut10_bin() { cuts::inner_cut::<PBin, 10>() } }
+crate::proof_skipstub!{ #[kani::unwind(5)] fn c09_x_gen_inner_cut11_bin() { cuts::inner_cut::<PBin, 11>() } }
+crate::proof_skipstub!{ #[kani::unwind(5)] fn c09_x_gen_inner_cut12_bin() { cuts::inner_cut::<PBin, 12>() } }
+crate::proof_skipstub!{ #[kani::unwind(5)] fn c09_x_gen_inner_cut13_bin() { cuts::inner_cut::<PBin, 13>() } }
+crate::proof_skipstub!{ #[kani::unwind(5)] fn c09_x_gen_inner_cut14_bin() { cuts::inner_cut::<PBin, 14>() } }
+crate::proof_skipstub!{ #[kani::unwind(5)] fn c09_x_gen_inner_cut15_bin() { cuts::inner_cut::<PBin, 15>() } }
+crate::proof_skipstub!{ #[kani::unwind(5)] fn c09_x_gen_inner_cut16_bin() { cuts::inner_cut::<PBin, 16>() } }
+crate::proof_skipstub!{ #[kani::unwind(5)] fn c09_q_gen_inner_cut17_bin() { cuts::inner_cut::<PBin, 17>() } }
+crate::proof_skipstub!{ #[kani::unwind(5)] fn c09_x_gen_inner_cut05_le() { cuts::inner_cut::<PLe, 5>() } }
+crate::proof_skipstub!{ #[kani::unwind(5)] fn c09_x_gen_inner_cut12_le() { cuts::inner_cut::<PLe, 12>() } }
+crate::proof_skipstub!{ #[kani::unwind(5)] fn c09_x_gen_inner_cut15_le() { cuts::inner_cut::<PLe, 15>() } }
+crate::proof_skipstub!{ #[kani::unwind(5)] fn c09_x_gen_inner_cut16_le() { cuts::inner_cut::<PLe, 16>() } }
+crate::proof_skipstub!{ #[kani::unwind(5)] fn c09_t_gen_inner_cut17_le() { cuts::inner_cut::<PLe, 17>() } }
+crate::proof_skipstub!{ #[kani::unwind(5)] fn c09_x_gen_inner_corrupt_len_bin() { cuts::inner_corrupt_len::<PBin>() } }
